@@ -227,8 +227,28 @@ theorem halfedge_of_edgeAt {k k' : Kernel} {a b : Nat} (he : k'.edgeAt (eOf b) =
 
 /-! ### `ConvAll` survives the atomic definition changes -/
 
-theorem convAll_mono {k k' : Kernel} (he : k'.edges = k.edges) (hf : k'.faces = k.faces) (hc : k'.cells = k.cells)
-    (hd : ∀ x, k.cDeleted x = true → k'.cDeleted x = true) (hq : ConvAll k) : ConvAll k' := by
+/-- a Boolean property of a cell (state, halfface list) that is invariant under consistent renamings -/
+structure CellPred (P : Kernel → List Nat → Bool) : Prop where
+  transport : ∀ {k k' : Kernel} {hfs : List Nat} {ρ σ τ : Nat → Nat} {R S : Nat → Prop},
+    CellMap k k' hfs ρ σ τ R S → P k' (hfs.map ρ) = P k hfs
+
+theorem CellPred.congr {P : Kernel → List Nat → Bool} (hP : CellPred P) {k k' : Kernel} (he : k'.edges = k.edges)
+    (hf : k'.faces = k.faces) (hfs : List Nat) : P k' hfs = P k hfs := by
+  have hh : ∀ x, k'.hfHes x = k.hfHes x := hfHes_congr k k' hf
+  have hv : ∀ a, k'.fromV a = k.fromV a := by intro a; unfold fromV halfedge edgeAt; rw [he]
+  have m : CellMap k k' hfs id id id (fun _ => True) (fun _ => True) :=
+    ⟨fun x _ => by simp [hh], fun x _ a _ => hv a, fun _ _ => rfl, fun _ _ _ _ e => e, fun _ _ _ _ => ⟨trivial, trivial⟩,
+     fun _ _ _ _ e => e, fun _ _ _ _ => trivial⟩
+  have := hP.transport m
+  simpa using this
+
+/-- every live cell has the property -/
+def AllCells (P : Kernel → List Nat → Bool) (k : Kernel) : Prop := ∀ c, k.liveC c = true → P k (k.cellAt c) = true
+
+theorem convPred : CellPred (fun k l => k.hexConvListB l) := ⟨fun m => conv_transport m⟩
+
+theorem allCells_mono {P : Kernel → List Nat → Bool} (hP : CellPred P) {k k' : Kernel} (he : k'.edges = k.edges) (hf : k'.faces = k.faces) (hc : k'.cells = k.cells)
+    (hd : ∀ x, k.cDeleted x = true → k'.cDeleted x = true) (hq : AllCells P k) : AllCells P k' := by
   intro c hl
   have hl0 : k.liveC c = true := by
     unfold liveC nC at *
@@ -238,12 +258,12 @@ theorem convAll_mono {k k' : Kernel} (he : k'.edges = k.edges) (hf : k'.faces = 
     cases hx : k.cDeleted c with
     | false => rfl
     | true => rw [hd c hx] at hl; exact absurd hl.2 (by simp)
-  unfold hexConvB cellAt
-  rw [hc, conv_congr he hf]
+  unfold Kernel.cellAt
+  rw [hc, hP.congr he hf]
   exact hq c hl0
 
-theorem stable_convAll : Stable ConvAll where
-  mono := fun _ he hf hc _ _ _ hd hq => convAll_mono he hf hc hd hq
+theorem stable_allCells {P : Kernel → List Nat → Bool} (hP : CellPred P) : Stable (AllCells P) where
+  mono := fun _ he hf hc _ _ _ hd hq => allCells_mono hP he hf hc hd hq
   eraseC := by
     intro k k' h hw hh _ he hf hc _ _ _ hcd hq c hl
     have hl0 : k.liveC (up h c) = true := by
@@ -252,8 +272,7 @@ theorem stable_convAll : Stable ConvAll where
       simp only [Bool.and_eq_true, decide_eq_true_eq] at hl ⊢
       exact ⟨(up_lt h c _ hh).mpr hl.1, hl.2⟩
     have hca : k'.cellAt c = k.cellAt (up h c) := by unfold cellAt; rw [hc, getD_eraseIdx]
-    unfold hexConvB
-    rw [hca, conv_congr he hf]
+    rw [hca, hP.congr he hf]
     exact hq _ hl0
   eraseF := by
     intro k k' h hw hh hun _ he hf hc _ _ _ hcd hq c hl
@@ -269,8 +288,7 @@ theorem stable_convAll : Stable ConvAll where
       rw [List.map_id]
       unfold hfHes faceAt
       rw [hf, getD_eraseIdx, eOf_corr2 h x hne, up_corr1 h _ hne, side_corr2]
-    unfold hexConvB
-    rw [hca, conv_transport m]
+    rw [hca, hP.transport m]
     exact hq c hl0
   eraseE := by
     intro k k' h hw hh hun _ he hf hc _ _ _ hcd hq c hl
@@ -300,8 +318,7 @@ theorem stable_convAll : Stable ConvAll where
       · intro x _ a ha
         have := hfHes_unrefE hun x a ha
         exact ⟨this, by rw [eOf_opp]; exact this⟩
-    unfold hexConvB
-    rw [hca, conv_transport m]
+    rw [hca, hP.transport m]
     exact hq c hl0
   eraseV := by
     intro k k' h hw hh hun _ he hf hc _ _ _ hcd hq c hl
@@ -335,16 +352,14 @@ theorem stable_convAll : Stable ConvAll where
         split
         · exact this.1
         · exact this.2
-    unfold hexConvB
-    rw [hca, conv_transport m]
+    rw [hca, hP.transport m]
     exact hq c hl0
   swapC := by
     intro k a b hw _ _ ha hb hq c hl
     by_cases hab : a = b
     · subst hab; rw [Global.swapCell_self] at hl ⊢; exact hq c hl
     · rw [swapCell_liveC hab ha hb hw.len.cDel] at hl
-      unfold hexConvB
-      rw [swapCell_cellAt hab ha hb, conv_congr (swapCell_edges (k := k) (a := a) (b := b)) (swapCell_faces (k := k) (a := a) (b := b))]
+      rw [swapCell_cellAt hab ha hb, hP.congr (swapCell_edges (k := k) (a := a) (b := b)) (swapCell_faces (k := k) (a := a) (b := b))]
       exact hq _ hl
   swapF := by
     intro k a b hw h1 _ ha hb hq c hl
@@ -360,8 +375,7 @@ theorem stable_convAll : Stable ConvAll where
           fun _ _ _ _ e => e, fun _ _ _ _ => trivial⟩
         intro x _
         rw [swapFace_hfHes hab ha hb, k3_relabelHalf_invol, List.map_id]
-      unfold hexConvB
-      rw [hca, conv_transport m]
+      rw [hca, hP.transport m]
       exact hq c hl0
   swapE := by
     intro k a b hw _ hcl ha hb hq c hl
@@ -386,8 +400,7 @@ theorem stable_convAll : Stable ConvAll where
         · intro x y _ _ e
           have := congrArg (relabelHalf a b) e
           rwa [k3_relabelHalf_invol, k3_relabelHalf_invol] at this
-      unfold hexConvB
-      rw [hca, conv_transport m]
+      rw [hca, hP.transport m]
       exact hq c hl0
   swapV := by
     intro k a b hw _ hcl ha hb hq c hl
@@ -423,19 +436,77 @@ theorem stable_convAll : Stable ConvAll where
         · intro u v _ _ e
           have := congrArg (relabelId a b) e
           rwa [relabelId_invol, relabelId_invol] at this
-      unfold hexConvB
-      rw [hca, conv_transport m]
+      rw [hca, hP.transport m]
       exact hq c hl0
+
+theorem stable_convAll : Stable ConvAll := stable_allCells convPred
+
+/-! ### eight distinct vertices -/
+
+theorem nodup_map_on' (f : Nat → Nat) : ∀ (l : List Nat), l.Nodup → (∀ a ∈ l, ∀ b ∈ l, f a = f b → a = b) → (l.map f).Nodup := by
+  intro l
+  induction l with
+  | nil => intro _ _; simp
+  | cons a t ih =>
+    intro hn hinj
+    have hc := List.nodup_cons.mp hn
+    rw [List.map_cons, List.nodup_cons]
+    refine ⟨?_, ih hc.2 (fun x hx y hy => hinj x (List.mem_cons_of_mem _ hx) y (List.mem_cons_of_mem _ hy))⟩
+    intro hm
+    obtain ⟨b, hb, e⟩ := List.mem_map.mp hm
+    have := hinj b (List.mem_cons_of_mem _ hb) a (List.mem_cons_self ..) e
+    rw [this] at hb; exact hc.1 hb
+
+theorem toSet_length_map_on (τ : Nat → Nat) (l : List Nat) (hτ : ∀ a ∈ l, ∀ b ∈ l, τ a = τ b → a = b) :
+    (toSet (l.map τ)).length = (toSet l).length := by
+  have h1 : (toSet (l.map τ)).Perm ((toSet l).map τ) := by
+    rw [List.perm_ext_iff_of_nodup (k4_toSet_nodup _) (nodup_map_on' τ _ (k4_toSet_nodup _)
+      (fun a ha b hb => hτ a ((k4_mem_toSet a l).mp ha) b ((k4_mem_toSet b l).mp hb)))]
+    intro a
+    simp only [k4_mem_toSet, List.mem_map]
+  rw [h1.length_eq, List.length_map]
+
+/-- six halffaces with eight distinct vertices (`hexCellShapeB` on a list) -/
+def shape8 (k : Kernel) (l : List Nat) : Bool := l.length == 6 && (toSet (l.flatMap k.hfVerts)).length == 8
+
+theorem shapePred : CellPred shape8 := by
+  constructor
+  intro k k' hfs ρ σ τ R S m
+  unfold shape8
+  rw [List.length_map]
+  congr 2
+  have e : (hfs.map ρ).flatMap k'.hfVerts = (hfs.flatMap k.hfVerts).map τ := by
+    have : ∀ l : List Nat, (∀ x ∈ l, x ∈ hfs) → (l.map ρ).flatMap k'.hfVerts = (l.flatMap k.hfVerts).map τ := by
+      intro l
+      induction l with
+      | nil => intro _; rfl
+      | cons a t ih =>
+        intro hl
+        simp only [List.map_cons, List.flatMap_cons, List.map_append]
+        rw [m.verts (hl a (List.mem_cons_self ..)), ih (fun x hx => hl x (List.mem_cons_of_mem _ hx))]
+    exact this hfs (fun x hx => hx)
+  rw [e]
+  apply toSet_length_map_on
+  intro a ha b hb hab
+  simp only [List.mem_flatMap, hfVerts, List.mem_map] at ha hb
+  obtain ⟨x, hx, ea, hea, rfl⟩ := ha
+  obtain ⟨y, hy, eb, heb, rfl⟩ := hb
+  exact m.tinj _ _ (m.trel x hx ea hea) (m.trel y hy eb heb) hab
+
+/-- every live cell has six halffaces and eight distinct vertices (the cell clause of `HexShape`) -/
+def ShapeAll8 (k : Kernel) : Prop := ∀ c, k.liveC c = true → k.hexCellShapeB c = true
+
+theorem stable_shapeAll8 : Stable ShapeAll8 := stable_allCells shapePred
 
 /-! ### creating operations: the old cells keep their convention -/
 
 /-- the predicate only reads the six halfface definitions and the sources of their halfedges -/
-theorem conv_local {k k' : Kernel} {hfs : List Nat} (hh : ∀ x ∈ hfs, k'.hfHes x = k.hfHes x)
-    (hv : ∀ x ∈ hfs, ∀ a ∈ k.hfHes x, k'.fromV a = k.fromV a) : k'.hexConvListB hfs = k.hexConvListB hfs := by
+theorem pred_local {P : Kernel → List Nat → Bool} (hP : CellPred P) {k k' : Kernel} {hfs : List Nat} (hh : ∀ x ∈ hfs, k'.hfHes x = k.hfHes x)
+    (hv : ∀ x ∈ hfs, ∀ a ∈ k.hfHes x, k'.fromV a = k.fromV a) : P k' hfs = P k hfs := by
   have m : CellMap k k' hfs id id id (fun _ => True) (fun _ => True) :=
     ⟨fun x hx => by simp [hh x hx], hv, fun _ _ => rfl, fun _ _ _ _ e => e, fun _ _ _ _ => ⟨trivial, trivial⟩,
      fun _ _ _ _ e => e, fun _ _ _ _ => trivial⟩
-  have := conv_transport m
+  have := hP.transport m
   simpa using this
 
 /-- edges and faces are appended, cells untouched -/
@@ -458,20 +529,19 @@ theorem Grow.trans {k1 k2 k3 : Kernel} (a : Grow k1 k2) (b : Grow k2 k3) : Grow 
 theorem getD_append_lt {α} (l m : List α) (i : Nat) (d : α) (h : i < l.length) : (l ++ m).getD i d = l.getD i d := by
   simp [List.getD_eq_getElem?_getD, List.getElem?_append_left h]
 
-theorem convAll_grow {k k' : Kernel} (hw : WF k) (g : Grow k k') (hq : ConvAll k) : ConvAll k' := by
+theorem allCells_grow {P : Kernel → List Nat → Bool} (hP : CellPred P) {k k' : Kernel} (hw : WF k) (g : Grow k k') (hq : AllCells P k) : AllCells P k' := by
   obtain ⟨es, he⟩ := g.edges
   obtain ⟨fs, hf⟩ := g.faces
   intro c hl
   have hl0 : k.liveC c = true := by rw [← liveC_of_cells (by rw [g.cells]) g.cDel]; exact hl
   have hca : k'.cellAt c = k.cellAt c := by unfold cellAt; rw [g.cells]
-  unfold hexConvB
   rw [hca]
   have hhes : ∀ x ∈ k.cellAt c, k'.hfHes x = k.hfHes x := by
     intro x hx
     have hxl : x < k.nHF := hw.range.cells _ (cellAt_mem_cells (liveC_lt hl0)) x hx
     unfold hfHes faceAt
     rw [hf, getD_append_lt _ _ _ _ (by unfold eOf nHF at *; omega)]
-  rw [conv_local hhes]
+  rw [pred_local hP hhes]
   · exact hq c hl0
   · intro x _ a ha
     have hal := hfHes_lt hw x a ha
@@ -509,8 +579,8 @@ theorem grow_addFaceV (k : Kernel) (vs : List Nat) : Grow k (k.addFaceV vs).1 :=
     exact (key ((v0 :: t).zip ((v0 :: t).tail ++ [v0])) (k, [])).trans (grow_addFace _ _ _)
 
 /-- a cell is appended: the old cells keep their convention, the new one is asked for -/
-theorem convAll_addCell {k : Kernel} (hw : WF k) (l : List Nat) (chk : Bool) (hq : ConvAll k)
-    (hnew : (k.addCell l chk).2 = some k.nC → k.hexConvListB l = true) : ConvAll (k.addCell l chk).1 := by
+theorem allCells_addCell {P : Kernel → List Nat → Bool} (hP : CellPred P) {k : Kernel} (hw : WF k) (l : List Nat) (chk : Bool) (hq : AllCells P k)
+    (hnew : (k.addCell l chk).2 = some k.nC → P k l = true) : AllCells P (k.addCell l chk).1 := by
   unfold addCell at hnew ⊢
   split
   · rename_i hacc
@@ -519,8 +589,8 @@ theorem convAll_addCell {k : Kernel} (hw : WF k) (l : List Nat) (chk : Bool) (hq
     unfold liveC nC cDeleted at hl
     rw [addCellCore_cells, addCellCore_cDel] at hl
     simp only [Bool.and_eq_true, decide_eq_true_eq, List.length_append, List.length_cons, List.length_nil] at hl
-    unfold hexConvB cellAt
-    rw [addCellCore_cells, conv_congr (addCellCore_edges k l) (addCellCore_faces k l)]
+    unfold Kernel.cellAt
+    rw [addCellCore_cells, hP.congr (addCellCore_edges k l) (addCellCore_faces k l)]
     by_cases hc : c < k.nC
     · rw [getD_append_lt _ _ _ _ hc]
       apply hq c
@@ -543,12 +613,12 @@ theorem convAll_addCell {k : Kernel} (hw : WF k) (l : List Nat) (chk : Bool) (hq
     OVM/Props/C16.lean establish in the cases they cover; the UNCHECKED `add_cell(halffaces, false)` stores
     whatever it is given, so there it is the caller's obligation).  `set_edge / set_face / set_cell` overwrite
     definitions in place and are not covered (`False`). -/
-def ConvOpOK (k : Kernel) : HexOp → Prop
+def PredOpOK (P : Kernel → List Nat → Bool) (k : Kernel) : HexOp → Prop
   | .base (.setEdge _ _ _) => False
   | .base (.setFace _ _) => False
   | .base (.setCell _ _) => False
-  | .base (.addCell chk hfs) => ∀ c, (k.hexAddCell hfs chk).2 = some c → (k.hexAddCell hfs chk).1.hexConvB c = true
-  | .addCellV chk vs => ∀ c, (k.hexAddCellV vs chk).2 = some c → (k.hexAddCellV vs chk).1.hexConvB c = true
+  | .base (.addCell chk hfs) => ∀ c, (k.hexAddCell hfs chk).2 = some c → P (k.hexAddCell hfs chk).1 ((k.hexAddCell hfs chk).1.cellAt c) = true
+  | .addCellV chk vs => ∀ c, (k.hexAddCellV vs chk).2 = some c → P (k.hexAddCellV vs chk).1 ((k.hexAddCellV vs chk).1.cellAt c) = true
   | _ => True
 
 theorem hexAddCell_cases (k : Kernel) (hfs : List Nat) (chk : Bool) :
@@ -557,12 +627,12 @@ theorem hexAddCell_cases (k : Kernel) (hfs : List Nat) (chk : Bool) :
   repeat' split
   all_goals first | exact Or.inl rfl | exact Or.inr ⟨_, _, rfl⟩
 
-theorem addCell_conv_new {k : Kernel} {l : List Nat} {b : Bool} (hs : (k.addCell l b).2 = some k.nC)
-    (h : (k.addCell l b).1.hexConvB k.nC = true) : k.hexConvListB l = true := by
+theorem addCell_pred_new {P : Kernel → List Nat → Bool} (hP : CellPred P) {k : Kernel} {l : List Nat} {b : Bool} (hs : (k.addCell l b).2 = some k.nC)
+    (h : P (k.addCell l b).1 ((k.addCell l b).1.cellAt k.nC) = true) : P k l = true := by
   unfold addCell at hs h
   split at h
-  · unfold hexConvB cellAt at h
-    rw [addCellCore_cells, conv_congr (addCellCore_edges k l) (addCellCore_faces k l)] at h
+  · unfold Kernel.cellAt at h
+    rw [addCellCore_cells, hP.congr (addCellCore_edges k l) (addCellCore_faces k l)] at h
     simpa [List.getD_eq_getElem?_getD, nC] using h
   · rename_i hn; simp [hn] at hs
 
@@ -598,9 +668,9 @@ theorem hexAddCellV_cases (k : Kernel) (vs : List Nat) (chk : Bool) :
         repeat' split
         all_goals first | exact Or.inl rfl | exact Or.inr ⟨_, rfl⟩
 
-theorem convAll_hexAddCellV {k : Kernel} {vs : List Nat} (chk : Bool) (hi : GInv k) (hok : HexOpOK k (.addCellV chk vs))
-    (hc : ConvOpOK k (.addCellV chk vs)) (hq : ConvAll k) : ConvAll (k.hexAddCellV vs chk).1 := by
-  have hc' : ∀ c, (k.hexAddCellV vs chk).2 = some c → (k.hexAddCellV vs chk).1.hexConvB c = true := hc
+theorem allCells_hexAddCellV {P : Kernel → List Nat → Bool} (hP : CellPred P) {k : Kernel} {vs : List Nat} (chk : Bool) (hi : GInv k) (hok : HexOpOK k (.addCellV chk vs))
+    (hc : PredOpOK P k (.addCellV chk vs)) (hq : AllCells P k) : AllCells P (k.hexAddCellV vs chk).1 := by
+  have hc' : ∀ c, (k.hexAddCellV vs chk).2 = some c → P (k.hexAddCellV vs chk).1 ((k.hexAddCellV vs chk).1.cellAt c) = true := hc
   rcases hexAddCellV_cases k vs chk with e | ⟨hl, e⟩
   · rw [e]; exact hq
   · have hg := cellV_fold_ginv vs hl cellVAdd cellVAdd_idx
@@ -608,83 +678,112 @@ theorem convAll_hexAddCellV {k : Kernel} {vs : List Nat} (chk : Bool) (hi : GInv
     have hgr := grow_cellVFold vs cellVAdd (k, cellVFind.map (fun idxs => k.findHalffaceExtensive (hexPick vs idxs)))
     generalize (cellVAdd.foldl (hexCellVStep vs) (k, cellVFind.map (fun idxs => k.findHalffaceExtensive (hexPick vs idxs)))) = st
       at hg hgr e
-    have q1 : ConvAll st.1 := convAll_grow hi.wf hgr hq
+    have q1 : AllCells P st.1 := allCells_grow hP hi.wf hgr hq
     rcases e with e | e | ⟨hfs, e⟩
-    · rw [e]; exact stable_convAll.same (k := st.1) rfl rfl rfl rfl rfl rfl rfl rfl q1
+    · rw [e]; exact (stable_allCells hP).same (k := st.1) rfl rfl rfl rfl rfl rfl rfl rfl q1
     · rw [e]; exact q1
     · rw [e] at hc' ⊢
-      exact convAll_addCell hg.1.wf hfs false q1 (fun hs => addCell_conv_new hs (hc' _ hs))
+      exact allCells_addCell hP hg.1.wf hfs false q1 (fun hs => addCell_pred_new hP hs (hc' _ hs))
 
-theorem convAll_hexStep (k : Kernel) (op : HexOp) (hi : GInv k) (hok : HexOpOK k op) (hc : ConvOpOK k op)
-    (hq : ConvAll k) : ConvAll (hexStep k op) := by
+theorem allCells_hexStep {P : Kernel → List Nat → Bool} (hP : CellPred P) (k : Kernel) (op : HexOp) (hi : GInv k) (hok : HexOpOK k op) (hc : PredOpOK P k op)
+    (hq : AllCells P k) : AllCells P (hexStep k op) := by
   cases op with
-  | addCellV chk vs => exact convAll_hexAddCellV chk hi hok hc hq
+  | addCellV chk vs => exact allCells_hexAddCellV hP chk hi hok hc hq
   | base op =>
     cases op with
     | addVertex =>
-      show ConvAll (k.addVertex).1
-      exact convAll_grow hi.wf ⟨⟨[], by simp [addVertex]⟩, ⟨[], by simp [addVertex]⟩, rfl, rfl⟩ hq
+      show AllCells P (k.addVertex).1
+      exact allCells_grow hP hi.wf ⟨⟨[], by simp [addVertex]⟩, ⟨[], by simp [addVertex]⟩, rfl, rfl⟩ hq
     | addNVertices n =>
-      show ConvAll (k.addNVertices n)
-      exact convAll_grow hi.wf ⟨⟨[], by simp [addNVertices]⟩, ⟨[], by simp [addNVertices]⟩, rfl, rfl⟩ hq
+      show AllCells P (k.addNVertices n)
+      exact allCells_grow hP hi.wf ⟨⟨[], by simp [addNVertices]⟩, ⟨[], by simp [addNVertices]⟩, rfl, rfl⟩ hq
     | addEdge a b d =>
-      show ConvAll (k.addEdge a b d).1
-      exact convAll_grow hi.wf (grow_addEdge k a b d) hq
+      show AllCells P (k.addEdge a b d).1
+      exact allCells_grow hP hi.wf (grow_addEdge k a b d) hq
     | addFaceHe chk hes =>
-      show ConvAll (k.hexAddFace hes chk).1
+      show AllCells P (k.hexAddFace hes chk).1
       unfold hexAddFace; split
       · exact hq
-      · exact convAll_grow hi.wf (grow_addFace k hes chk) hq
+      · exact allCells_grow hP hi.wf (grow_addFace k hes chk) hq
     | addFaceV vs =>
-      show ConvAll (k.hexAddFaceV vs).1
+      show AllCells P (k.hexAddFaceV vs).1
       unfold hexAddFaceV; split
       · exact hq
-      · exact convAll_grow hi.wf (grow_addFaceV k vs) hq
+      · exact allCells_grow hP hi.wf (grow_addFaceV k vs) hq
     | addCell chk hfs =>
-      show ConvAll (k.hexAddCell hfs chk).1
-      have hc' : ∀ c, (k.hexAddCell hfs chk).2 = some c → (k.hexAddCell hfs chk).1.hexConvB c = true := hc
+      show AllCells P (k.hexAddCell hfs chk).1
+      have hc' : ∀ c, (k.hexAddCell hfs chk).2 = some c → P (k.hexAddCell hfs chk).1 ((k.hexAddCell hfs chk).1.cellAt c) = true := hc
       rcases hexAddCell_cases k hfs chk with e | ⟨l, b, e⟩
       · rw [e]; exact hq
       · rw [e] at hc' ⊢
-        exact convAll_addCell hi.wf l b hq (fun hs => addCell_conv_new hs (hc' _ hs))
-    | setEdge e a b => exact absurd hc (by simp [ConvOpOK])
-    | setFace f hes => exact absurd hc (by simp [ConvOpOK])
-    | setCell c hfs => exact absurd hc (by simp [ConvOpOK])
+        exact allCells_addCell hP hi.wf l b hq (fun hs => addCell_pred_new hP hs (hc' _ hs))
+    | setEdge e a b => exact absurd hc (by simp [PredOpOK])
+    | setFace f hes => exact absurd hc (by simp [PredOpOK])
+    | setCell c hfs => exact absurd hc (by simp [PredOpOK])
     | clear p =>
       intro c hl
       have hl' : (k.clear p).liveC c = true := hl
       have : (k.clear p).liveC c = false := by unfold liveC nC clear; simp
       rw [this] at hl'; cases hl'
-    | deleteVertex v => exact stable_step stable_convAll k _ trivial hi hok hq
-    | deleteEdge v => exact stable_step stable_convAll k _ trivial hi hok hq
-    | deleteFace v => exact stable_step stable_convAll k _ trivial hi hok hq
-    | deleteCell v => exact stable_step stable_convAll k _ trivial hi hok hq
-    | swapVertex a b => exact stable_step stable_convAll k _ trivial hi hok hq
-    | swapEdge a b => exact stable_step stable_convAll k _ trivial hi hok hq
-    | swapFace a b => exact stable_step stable_convAll k _ trivial hi hok hq
-    | swapCell a b => exact stable_step stable_convAll k _ trivial hi hok hq
-    | collectGarbage => exact stable_step stable_convAll k _ trivial hi hok hq
-    | enableDeferred b => exact stable_step stable_convAll k _ trivial hi hok hq
-    | enableFast b => exact stable_step stable_convAll k _ trivial hi hok hq
-    | enableBU kind b => exact stable_step stable_convAll k _ trivial hi hok hq
+    | deleteVertex v => exact stable_step (stable_allCells hP) k _ trivial hi hok hq
+    | deleteEdge v => exact stable_step (stable_allCells hP) k _ trivial hi hok hq
+    | deleteFace v => exact stable_step (stable_allCells hP) k _ trivial hi hok hq
+    | deleteCell v => exact stable_step (stable_allCells hP) k _ trivial hi hok hq
+    | swapVertex a b => exact stable_step (stable_allCells hP) k _ trivial hi hok hq
+    | swapEdge a b => exact stable_step (stable_allCells hP) k _ trivial hi hok hq
+    | swapFace a b => exact stable_step (stable_allCells hP) k _ trivial hi hok hq
+    | swapCell a b => exact stable_step (stable_allCells hP) k _ trivial hi hok hq
+    | collectGarbage => exact stable_step (stable_allCells hP) k _ trivial hi hok hq
+    | enableDeferred b => exact stable_step (stable_allCells hP) k _ trivial hi hok hq
+    | enableFast b => exact stable_step (stable_allCells hP) k _ trivial hi hok hq
+    | enableBU kind b => exact stable_step (stable_allCells hP) k _ trivial hi hok hq
 
-def ConvHistoryOK : Kernel → List HexOp → Prop
+def PredHistoryOK (P : Kernel → List Nat → Bool) : Kernel → List HexOp → Prop
   | _, [] => True
-  | k, op :: t => (HexOpOK k op ∧ ConvOpOK k op) ∧ ConvHistoryOK (hexStep k op) t
+  | k, op :: t => (HexOpOK k op ∧ PredOpOK P k op) ∧ PredHistoryOK P (hexStep k op) t
 
 /-- **history version**: every live cell stays in convention along every history of valid calls in which
     cells are created in convention — no restriction on the deletion mode or the bottom-up configuration -/
-theorem conv_run (ops : List HexOp) (k : Kernel) (hi : GInv k) (hq : ConvAll k) (hr : ConvHistoryOK k ops) :
-    GInv (hexRun k ops) ∧ ConvAll (hexRun k ops) := by
+theorem pred_run {P : Kernel → List Nat → Bool} (hP : CellPred P) (ops : List HexOp) (k : Kernel) (hi : GInv k) (hq : AllCells P k) (hr : PredHistoryOK P k ops) :
+    GInv (hexRun k ops) ∧ AllCells P (hexRun k ops) := by
   induction ops generalizing k with
   | nil => exact ⟨hi, hq⟩
   | cons op t ih =>
     simp only [hexRun, List.foldl_cons]
-    exact ih _ (ginv_hexStep k op hi hr.1.1) (convAll_hexStep k op hi hr.1.1 hr.1.2 hq) hr.2
+    exact ih _ (ginv_hexStep k op hi hr.1.1) (allCells_hexStep hP k op hi hr.1.1 hr.1.2 hq) hr.2
+
+theorem pred_reachable {P : Kernel → List Nat → Bool} (hP : CellPred P) (ops : List HexOp) (hr : PredHistoryOK P {} ops) :
+    GInv (hexRun {} ops) ∧ AllCells P (hexRun {} ops) :=
+  pred_run hP ops {} ginv_empty (fun c hl => by unfold liveC nC at hl; simp at hl) hr
+
+/-! ### the two instances: stored convention, eight distinct vertices -/
+
+/-- what the convention invariant asks of a call besides `HexOpOK`: a created cell is in convention (for the
+    checked `add_cell(halffaces)` and for `add_cell(8 vertices)` this is what the creation theorems of
+    OVM/Props/C16.lean establish; the UNCHECKED `add_cell(halffaces, false)` stores whatever it is given, so there it
+    is the caller's obligation).  `set_edge / set_face / set_cell` overwrite definitions in place and are not
+    covered (`False`). -/
+def ConvOpOK (k : Kernel) (op : HexOp) : Prop := PredOpOK (fun k l => k.hexConvListB l) k op
+
+theorem convAll_hexStep (k : Kernel) (op : HexOp) (hi : GInv k) (hok : HexOpOK k op) (hc : ConvOpOK k op)
+    (hq : ConvAll k) : ConvAll (hexStep k op) := allCells_hexStep convPred k op hi hok hc hq
+
+def ConvHistoryOK (k : Kernel) (ops : List HexOp) : Prop := PredHistoryOK (fun k l => k.hexConvListB l) k ops
+
+/-- **history version**: every live cell stays in convention along every history of valid calls in which
+    cells are created in convention — no restriction on the deletion mode or the bottom-up configuration -/
+theorem conv_run (ops : List HexOp) (k : Kernel) (hi : GInv k) (hq : ConvAll k) (hr : ConvHistoryOK k ops) :
+    GInv (hexRun k ops) ∧ ConvAll (hexRun k ops) := pred_run convPred ops k hi hq hr
 
 theorem conv_reachable (ops : List HexOp) (hr : ConvHistoryOK {} ops) :
-    GInv (hexRun {} ops) ∧ ConvAll (hexRun {} ops) :=
-  conv_run ops {} ginv_empty (fun c hl => by unfold liveC nC at hl; simp at hl) hr
+    GInv (hexRun {} ops) ∧ ConvAll (hexRun {} ops) := pred_reachable convPred ops hr
+
+/-- the same for "six halffaces, eight distinct vertices" -/
+def ShapeOpOK (k : Kernel) (op : HexOp) : Prop := PredOpOK shape8 k op
+def ShapeHistoryOK (k : Kernel) (ops : List HexOp) : Prop := PredHistoryOK shape8 k ops
+
+theorem shape8_run (ops : List HexOp) (k : Kernel) (hi : GInv k) (hq : ShapeAll8 k) (hr : ShapeHistoryOK k ops) :
+    GInv (hexRun k ops) ∧ ShapeAll8 (hexRun k ops) := pred_run shapePred ops k hi hq hr
 
 /-! ### Boolean forms (for `decide` on concrete histories) -/
 
